@@ -197,6 +197,7 @@ func kCheckC(s *Sink, key string, fn *cnode) {
 	// every "l = 0" must be guarded by a condition that depends on errnum
 	bad := 0
 	n0 := 0
+	benignOther := 0
 	fn.walk(func(n *cnode, stack []*cnode) {
 		if n.Kind == "BinaryOperator" && n.Op == "=" && len(n.Inner) == 2 {
 			l := stripCasts(n.Inner[0])
@@ -207,6 +208,20 @@ func kCheckC(s *Sink, key string, fn *cnode) {
 				for i := len(stack) - 1; i >= 0; i-- {
 					if stack[i].Kind == "IfStmt" && len(stack[i].Inner) > 0 && stack[i].Inner[0].refs(evar) {
 						guarded = true
+						// oracle (zlib): only Z_OK (0) and Z_STREAM_END (1) mean a clean end; gzread reports a
+						// truncated stream as Z_BUF_ERROR (-5)
+						stack[i].Inner[0].walk(func(m *cnode, _ []*cnode) {
+							if m.Kind == "BinaryOperator" && (m.Op == "==" || m.Op == "!=") && len(m.Inner) == 2 {
+								for k := 0; k < 2; k++ {
+									if m.Inner[k].refs(evar) {
+										o := stripCasts(m.Inner[1-k])
+										if !(o.Kind == "IntegerLiteral" && (o.Value == "0" || o.Value == "1")) {
+											benignOther++
+										}
+									}
+								}
+							}
+						})
 					}
 				}
 				if !guarded {
@@ -215,6 +230,10 @@ func kCheckC(s *Sink, key string, fn *cnode) {
 			}
 		}
 	})
+	if benignOther > 0 {
+		fail("the result of kseq_read() is reset to 0 ('finished') for a zlib error number other than Z_OK/Z_STREAM_END: gzread reports a truncated stream as Z_BUF_ERROR, which must not end the input normally")
+		return
+	}
 	if bad > 0 {
 		fail("a negative result of kseq_read() is reset to 0 ('finished') without consulting the zlib error number: read and decompression errors end the input silently")
 		return
